@@ -61,6 +61,12 @@ def make_source(kind: str, data, tmpdir: str | None, name: str = "f.swc"):
         f.write(raw)
     if kind == "path":
         return path
+    if kind == "path-bytes":  # PathOrIO admits bytes paths
+        return os.fsencode(path)
+    if kind == "path-rel":  # the same file, spelled relative to the working directory
+        return os.path.join(".", os.path.relpath(path))
+    if kind == "fd":  # PathOrIO admits file descriptors (closed by the reader)
+        return os.open(path, os.O_RDONLY)
     if kind == "textfile":
         return open(path, "r", encoding="utf-8")
     raise ValueError(kind)
